@@ -59,12 +59,28 @@ def main():
     if not res.get("valid_seed"):
         print(json.dumps(res, indent=1))
         return 1
-    # run the checks against /repo with the patch applied
-    st, _ = sh("git -C /repo status --porcelain")
-    rca, oa = sh(f"git -C /repo apply {patch}")
-    assert rca == 0, oa
+    use_wt = "--worktree" in sys.argv
     checks = {}
+    if use_wt:
+        # run the checks against a scratch worktree with the patch applied (CGV_REPO), leaving /repo alone
+        sh(f"git -C /repo worktree remove --force {wt}")
+        sh(f"git -C /repo worktree add -q {wt} HEAD")
+        rca, oa = sh(f"git apply {patch}", cwd=wt)
+        assert rca == 0, oa
+        try:
+            rc, out = sh(f"CGV_REPO={wt} CGV_NO_EVIDENCE=1 ./check {pid} --tier {tier}", cwd="/verif", timeout=7200)
+            vio = re.findall(r"^VIOLATION property=(\S+) replay=(\S+)\n\s+what: (.*)$", out, re.M)
+            checks[pid] = {"exit": rc, "violations": [v[2][:300] for v in vio], "summary": out.strip().split("\n")[-1][:300]}
+        finally:
+            sh(f"git -C /repo worktree remove --force {wt}")
+    # run the checks against /repo with the patch applied
+    if not use_wt:
+        st, _ = sh("git -C /repo status --porcelain")
+        rca, oa = sh(f"git -C /repo apply {patch}")
+        assert rca == 0, oa
     try:
+        if use_wt:
+            raise StopIteration
         ids = [pid]
         if run_all:
             man = json.load(open("/verif/MANIFEST.json"))
@@ -73,8 +89,11 @@ def main():
             rc, out = sh(f"./check {i} --tier {tier}", cwd="/verif", timeout=7200)
             vio = re.findall(r"^VIOLATION property=(\S+) replay=(\S+)\n\s+what: (.*)$", out, re.M)
             checks[i] = {"exit": rc, "violations": [v[2][:300] for v in vio], "summary": out.strip().split("\n")[-1][:300]}
+    except StopIteration:
+        pass
     finally:
-        sh("git -C /repo checkout -- .")
+        if not use_wt:
+            sh("git -C /repo checkout -- .")
     res["checks"] = checks
     res["caught_by_own_check"] = checks[pid]["exit"] == 1
     res["caught_by"] = [i for i, c in checks.items() if c["exit"] == 1]
@@ -83,7 +102,7 @@ def main():
     shutil.copy(patch, os.path.join(dst, "patch.diff"))
     shutil.copy(demo, os.path.join(dst, "demo.py"))
     meta.update({"breaks_property": pid, "verification": res,
-                 "what_was_run": f"scratch worktree of /repo HEAD: pytest tests (pass list compared), demo.py clean/patched; then `git -C /repo apply patch.diff; ./check <id> --tier {tier}; git -C /repo checkout -- .`"})
+                 "what_was_run": f"scratch worktree of /repo HEAD: pytest tests (pass list compared), demo.py clean/patched; then " + ("the patch applied in a scratch worktree and `CGV_REPO=<worktree> ./check <id> --tier " + tier + "`" if use_wt else f"`git -C /repo apply patch.diff; ./check <id> --tier {tier}; git -C /repo checkout -- .`")})
     json.dump(meta, open(os.path.join(dst, "meta.json"), "w"), indent=1)
     print(json.dumps({k: res[k] for k in ("property", "variant", "valid_seed", "caught_by_own_check", "caught_by")}, indent=0))
     for i, c in checks.items():
